@@ -31,7 +31,8 @@ CONSTANTS MaxDepth,      \* length of the emitted paths
           PartnerIdx,    \* the second vector b is the image of this base point in the octant after a's (vector mode)
           MaxDegree,     \* field mode: all monomials x^i y^j z^k with i + j + k <= MaxDegree
           Scales,        \* subset of DOMAIN ScaleTable: the factors offered to Scale; {} disables the action
-          AngleFields    \* BOOLEAN: field mode also takes the azimuth-dependent fields (where their value is rational)
+          AngleFields,   \* BOOLEAN: field mode also takes the azimuth-dependent fields (where their value is rational)
+          Rotated        \* BOOLEAN: vector mode also offers "rot", a Cartesian system ROTATED about z against the parent
 
 \* a = num / den: the Cartesian components of vector a (field mode: the physical point, den = 1);
 \* magn / den = |a| (vector mode; Pythagorean points have integer length)
@@ -61,8 +62,13 @@ SignTable == << <<1, 1, 1>>, <<-1, 1, 1>>, <<1, -1, 1>>, <<-1, -1, 1>>,
 Signed(p, o) == <<SignTable[o][1] * p[1], SignTable[o][2] * p[2], SignTable[o][3] * p[3]>>
 Points == {Signed(p, o) : p \in BasePoints, o \in Octants}
 
+\* "rot": a second Cartesian system, turned about the z axis by the angle whose cosine is 3/5 and sine 4/5
+\* (coordinates_rotate of the parent Cartesian system).  A vector of any system may be re-expressed in it; the
+\* object does not change.  From "rot" only "cart" and "rot" are offered (rot -> curvilinear is not covered).
+AllReprs == Reprs \cup {"rot"}
+
 \* the transformations the library offers; everything else must be refused
-Allowed(from, to) == from = to \/ from = "cart" \/ to = "cart"
+Allowed(from, to) == from = to \/ from = "cart" \/ to = "cart" \/ to = "rot"
 
 -----------------------------------------------------------------------------
 (* functions of the geometric object (never of repr)                         *)
@@ -125,7 +131,9 @@ Init == /\ obj = Object
 
 Rebase(to) ==
   /\ Len(path) < MaxDepth
-  /\ (OnAxis(a) => to \in {"cart", repr})         \* into a system where the vector is singular: not covered
+  /\ (OnAxis(a) => to \in {"cart", "rot", repr})  \* into a system where the vector is singular: not covered
+  /\ (to = "rot" => Rotated /\ obj = "vector")
+  /\ (repr = "rot" => to \in {"cart", "rot"})
   /\ UNCHANGED <<obj, a, den, magn, b, start>>    \* the geometric object is not touched
   /\ IF Allowed(repr, to) THEN repr' = to ELSE repr' = repr
   /\ path' = Append(path, Step("rebase", to, Allowed(repr, to),
@@ -139,12 +147,13 @@ Scale(i) ==
   /\ path' = Append(path, Step("scale", ToString(k[1]) \o "/" \o ToString(k[2]), TRUE,
                                 ObsAt(Scale3(k[1], a), k[2] * den, AbsI(k[1]) * magn, b, repr)))
 
-Next == (\E to \in Reprs : Rebase(to)) \/ (\E i \in Scales : Scale(i))
+Next == (\E to \in AllReprs : Rebase(to)) \/ (\E i \in Scales : Scale(i))
 Spec == Init /\ [][Next]_vars
 
 -----------------------------------------------------------------------------
 (* Properties of the model.                                                  *)
-TypeOK == /\ obj \in {"vector", "field"} /\ repr \in Reprs /\ Len(path) <= MaxDepth
+TypeOK == /\ obj \in {"vector", "field"} /\ repr \in AllReprs /\ Len(path) <= MaxDepth
+          /\ (repr = "rot" => Rotated /\ obj = "vector")
           /\ \A i \in 1..3 : a[i] \in Int /\ b[i] \in Int
           /\ den \in Nat \ {0} /\ magn \in Nat
 
@@ -168,7 +177,7 @@ MagnitudeIsNorm == obj = "vector" => magn > 0 /\ magn * magn = MagSq3(a)
 FieldAppliesToOwnPoints ==
   obj = "field" => \A k \in Reprs : (Observation.apply[k] = "value") = (k = repr)
 \* points are away from the coordinate singularities (x = y = 0) and all numbers stay far below 2^31
-AwayFromAxis == OnAxis(a) => repr \in {"cart", "sph"} /\ obj = "vector"
+AwayFromAxis == OnAxis(a) => repr \in {"cart", "sph", "rot"} /\ obj = "vector"
 Small32 == /\ \A i \in 1..3 : AbsI(a[i]) < 20000 /\ AbsI(b[i]) < 200
            /\ den <= 64
 
